@@ -302,7 +302,7 @@ def stub_configs(ctx, prop):
         specs = list(two) + ([("theta3", 135)] if (alg.endswith("ell") or prop == "C06") else [])
         for spec in specs:
             for K in (2, 3):
-                for bsz, costs, budget in ((1, None, None), (2, [1.0, 3.0], None), (1, [1.0, 1.0], 2.0), (2, [1.0, 3.0], 5.0), (2 * K + 1, None, None)):
+                for bsz, costs, budget in ((1, None, None), (2, [1.0, 3.0], None), (1, [1.0, 1.0], 2.0), (2, [0.5, 2.0], 4.0), (1, [2.0, 3.0], 9.0), (2 * K + 1, None, None)):
                     if prop == "C07" and bsz > 2 * K:
                         continue
                     if ctx.thorough or K == 2 or spec == ("comp", 2):
@@ -698,9 +698,9 @@ def real_configs(ctx, prop):
             if alg in ("PaVeBaGP-IH", "PaVeBaGP-DE", "VOGP", "EpsilonPAL"):
                 cfgs = [{"batch_size": 1}, {"batch_size": 2}] + ([{"batch_size": 5}] if prop == "C06" else [])
             if alg.startswith("PartialGP"):
-                cfgs = [{"batch_size": 1}, {"batch_size": 2, "costs": [1.0, 3.0]}, {"batch_size": 1, "costs": [1.0, 1.0], "cost_budget": 3.0}]
+                cfgs = [{"batch_size": 1}, {"batch_size": 2, "costs": [0.5, 2.0]}, {"batch_size": 1, "costs": [2.0, 3.0], "cost_budget": 9.0}]
             if alg == "Decoupled":
-                cfgs = [{"batch_size": 1, "costs": [1.0, 1.0], "cost_budget": 3.0}, {"batch_size": 2, "costs": [1.0, 3.0], "cost_budget": 5.0}]
+                cfgs = [{"batch_size": 1, "costs": [1.0, 1.0], "cost_budget": 3.0}, {"batch_size": 2, "costs": [0.5, 2.0], "cost_budget": 4.0}]
             if alg == "Naive":
                 cfgs = [{"L": 1}, {"L": 3}]
             for cfg in cfgs:
@@ -747,7 +747,10 @@ def run_opt_tables(unit, res):
     from vopy.acquisition import optimize_acqf_discrete, optimize_decoupled_acqf_discrete
 
     choices = np.stack([np.arange(n), 10.0 + np.arange(n)], axis=1).astype(float)
-    for table in itertools.product((0.0, 1.0, 2.0), repeat=n):
+    # value alphabets: order-one values, the same scaled to 1e-9 (variances / cost-weighted variances are often tiny:
+    # nothing may be "numerically tied" by an absolute tolerance) and near-ties (relative difference 1e-6)
+    alphabets = [(0.0, 1.0, 2.0), (0.0, 1e-9, 2e-9)] + ([(1.0, 1.0 + 1e-6, 2.0)] if n <= 4 else [])
+    for table in itertools.chain.from_iterable(itertools.product(a, repeat=n) for a in alphabets):
         for q in range(1, n + 1):
             res["evaluations"] += 1
             res["nontrivial"] += 1
@@ -758,7 +761,7 @@ def run_opt_tables(unit, res):
                 res["violations"].append(_viol(prop, "optimiser-raised", "optimize_acqf_discrete", case, "returns", repr(e)[:200], f"optimize_acqf_discrete raised {e!r} for table {table} q={q}"))
                 return
             ids = [int(c[0]) for c in np.atleast_2d(cand)]
-            ok = len(ids) == q and len(set(ids)) == q and np.allclose(vals, [table[i] for i in ids])
+            ok = len(ids) == q and len(set(ids)) == q and np.array_equal(np.asarray(vals, float), np.array([table[i] for i in ids]))
             left = dict(enumerate(table))
             for i in ids:
                 if not ok:
